@@ -76,6 +76,8 @@ def main():
         print(json.dumps(meta, indent=1))
     finally:
         sh('git -C /repo worktree remove --force %s' % wt)
+        # translators rewrite lean/FeVerif/Generated/* from the tree they are pointed at: regenerate from /repo
+        sh('cd %s && ./check %s --tier quick' % (VERIF, a.prop), env=dict(os.environ, FE_EVIDENCE=os.path.join(tempfile.gettempdir(), 'seeded_evidence')), timeout=3600)
     # file it
     base = os.path.join(VERIF, 'seeded')
     os.makedirs(base, exist_ok=True)
